@@ -30,12 +30,13 @@ var contents = map[string][]byte{"X": []byte("x1x1\n"), "Y": []byte("yyy22222\n"
 var ids = map[string]cache.ActionID{}
 
 func init() {
-	var a, b cache.ActionID
+	var a, b, c cache.ActionID
 	for i := range a {
 		a[i] = 0xa0 + byte(i%7)
 		b[i] = 0xb0 + byte(i%5)
+		c[i] = 0xc0 + byte(i%3)
 	}
-	ids["A"], ids["B"] = a, b
+	ids["A"], ids["B"], ids["C"] = a, b, c
 }
 
 type op struct {
@@ -248,7 +249,7 @@ func (in *instance) body() {
 		if err := os.Rename(in.dir, nd); err != nil {
 			kit.Harness("rename: %v", err)
 		}
-		for _, sd := range []string{"a0", "b0"} {
+		for _, sd := range []string{"a0", "b0", "c0"} {
 			clearDir(filepath.Join(nd, sd))
 		}
 		for _, c := range contents {
@@ -257,7 +258,7 @@ func (in *instance) body() {
 		}
 	}
 	in.dir = nd
-	in.invoked = map[string]map[string]bool{"A": {}, "B": {}}
+	in.invoked = map[string]map[string]bool{"A": {}, "B": {}, "C": {}}
 	in.putOK = map[string]bool{}
 	in.viol = ""
 	in.hits, in.misses, in.done = 0, 0, 0
@@ -490,6 +491,8 @@ func scenarios(th bool) []scenario {
 		{Name: "5 overwrite same length" + pmodeTag, Pre: [][2]string{{"A", "X"}}, Threads: [][]op{{put("A", "Z")}, {gb("A"), gf("A")}}, Bound: 2},
 		{Name: "1 same id same content" + pmodeTag, Threads: [][]op{{put("A", "X")}, {put("A", "X")}, {gb("A"), gf("A")}}, Bound: 1},
 		{Name: "8 re-store while another id shares the output", Pre: [][2]string{{"A", "X"}, {"B", "X"}}, Threads: [][]op{{put("A", "X")}, {gb("B"), gf("B")}}, MustHit: []string{"A", "B"}, Bound: b2},
+		{Name: "11 overwrite while another id shares the superseded output", Pre: [][2]string{{"A", "X"}, {"B", "X"}}, Threads: [][]op{{put("A", "Y")}, {gb("B"), gf("B")}}, MustHit: []string{"B"}, Bound: b2},
+		{Name: "12 two ids swap away from a shared output", Pre: [][2]string{{"A", "X"}, {"B", "X"}, {"C", "X"}}, Threads: [][]op{{put("A", "Z")}, {put("B", "Y")}, {gf("C"), gb("C")}}, MustHit: []string{"C"}, Bound: b3},
 	}
 }
 
